@@ -302,19 +302,17 @@ def run_cases(ctx, binpath, cases, tag="rb", workers=16, shard=12):
         terms.append(case_term(c, o))
     live = [(i, t) for i, t in enumerate(terms) if t is not None]
     v = blocklib.variant()
-    if v is None:
-        qs = lambda l: ["bad_rcases 0 %s" % l, "rcoverage %s" % l]
-    else:
-        qs = lambda l: ["bad_rcases_v %s 0 %s" % (v, l), "rcoverage_v %s %s" % (v, l)]
+    qs = (lambda l: ["rverdicts %s" % l]) if v is None else (lambda l: ["rverdicts_v %s %s" % (v, l)])
     res = vlib.coq_eval_sharded(ctx, tag, IMPORTS, [t for _, t in live], qs, shard=shard)
     bad = list(failed)
     cov = [0] * len(cs)
     for off, vals in res:
-        for item in vlib.parse_coq_list(vals[0]):
+        for i, item in enumerate(vlib.parse_coq_list(vals[0])):
             f = vlib.flat(item)
-            bad.append(dict(case=live[off + f[0]][0], diff=f[1], oracle=bool(f[2])))
-        for i, w in enumerate(vlib.parse_coq_list(vals[1])):
-            cov[live[off + i][0]] = w
+            ci = live[off + i][0]
+            cov[ci] = f[2]
+            if f[0] != 0 or not f[1]:
+                bad.append(dict(case=ci, diff=f[0], oracle=bool(f[1])))
     return bad, cov, outs, skip
 
 
